@@ -79,11 +79,11 @@ def mutations(n):
                 if d2 is not r and len(d2.ports) == len(r.ports) and all(len(a.pins) == len(b.pins) for a, b in zip(d2.ports, r.ports)):
                     out.append(("repoint-instance", lambda x=x, d2=d2: setattr(x, "reference", d2)))
             props = x.get("EDIF.properties")
-            if props:
-                def chg(x=x):
+            for pi in range(len(props or ())):
+                def chg(x=x, pi=pi):
                     import copy
                     pr = copy.deepcopy(x["EDIF.properties"])
-                    pr[0]["value"] = "changed" if pr[0]["value"] != "changed" else "changed2"
+                    pr[pi]["value"] = "changed" if pr[pi]["value"] != "changed" else "changed2"
                     x["EDIF.properties"] = pr
                 out.append(("property-value", chg))
             out.append(("drop-instance", lambda d=d, x=x: (x.__setattr__("reference", None), d.remove_child(x))))
